@@ -38,7 +38,9 @@ def _text(max_tokens=3):
 
 def strategy(tier):
   keys = st.one_of(_text(2), st.sampled_from(['k', 'm', 'a.b', 'x y']), st.integers(0, 2))
-  leaf = st.one_of(_text(4), st.integers(-2, 3), st.sampled_from([None, True, 1.5]))
+  # (some strings are long: previews and tooltips truncate, which must not skip escaping)
+  long_text = _text(4).map(lambda t: (t * (300 // len(t) + 1))[:300])
+  leaf = st.one_of(_text(4), _text(4), _text(4), long_text, st.integers(-2, 3), st.sampled_from([None, True, 1.5]))
 
   def ext(c):
     return st.one_of(
@@ -190,6 +192,9 @@ def _render_tree(desc, opts, plain_dict):
   return out, before == after, kw
 
 
+_CONTROL_STATE = {'unchanged': True}
+
+
 def _render_control(case, texts):
   c = case.get('c')
   n = case.get('n', 1)
@@ -212,7 +217,11 @@ def _render_control(case, texts):
     ctl = controls.ProgressBar([controls.SubProgress(name=t[i % len(t)], value=i) for i in range(n)], total=5)
   else:
     raise core.InvalidCase(case)
-  return ctl.to_html_str()
+  before = pg.format(ctl, compact=True)
+  html = ctl.to_html_str()
+  again = ctl.to_html_str()
+  _CONTROL_STATE['unchanged'] = (pg.format(ctl, compact=True) == before) and (again == html)
+  return html
 
 
 def execute(case):
@@ -244,8 +253,8 @@ def execute(case):
       if case.get('c') == 'tab':
         sig['pos'] = str(case.get('pos'))
       out = _render_control(case, texts)
+      unchanged = _CONTROL_STATE['unchanged']
       twin = _render_control(case, benign_of(texts))
-      unchanged = True
   except core.InvalidCase:
     raise
   except RecursionError:
